@@ -200,7 +200,7 @@ def run_model_parallel(d, jobs=16):
     with open(os.path.join(d, "model.out"), "wb") as out:
         for p, ip, op in procs:
             try:
-                r = p.wait(timeout=7200)
+                r = p.wait(timeout=int(os.environ.get("VERIF_MODEL_TIMEOUT", "1800")))
             except subprocess.TimeoutExpired:
                 p.kill()
                 r = 124
